@@ -32,7 +32,10 @@ pub fn run(ctx: &mut Ctx) {
         // (one case in eight: a sequence that is not a whole number of labels — the number of
         // states per label only matters to the aligned path)
         let nst = if idx % 8 == 5 { (nstate * nlab + rng.range(1, 6)).min(200) } else { nstate * nlab };
-        let kind = idx % 7;
+        let heavy = idx % 40 == 7 || idx % 40 == 8;
+        let nst = if heavy { rng.range(170, 200) } else { nst };
+        // (kinds 7 and 8 are expensive: one case in twenty)
+        let kind = if idx % 40 == 7 { 7 } else if idx % 40 == 8 { 8 } else { idx % 7 };
         let proto = MeanVari(rng.uniform(0.2, 60.0), rng.log_uniform(1e-3, 400.0));
         let params: Vec<MeanVari> = (0..nst)
             .map(|_| match kind {
@@ -43,6 +46,11 @@ pub fn run(ctx: &mut Ctx) {
                 // means a hair below / above a rounding tie (far more than f64 rounding, less
                 // than single precision resolves)
                 6 => MeanVari((rng.range(0, 60) as f64 + 0.5) * (1.0 + *rng.pick(&[-1e-9, -1e-8, -3e-8, 1e-8, -2e-10, 3e-8])), rng.log_uniform(1e-3, 400.0)),
+                // long means with a bimodal variance profile: almost every state rigid, a few
+                // very loose ones (the first estimate then overshoots by thousands of frames)
+                7 => MeanVari(rng.uniform(52.0, 60.0), if rng.chance(0.04) { 400.0 } else { 1e-3 }),
+                // long means throughout (with slow speeds: targets above a hundred thousand frames)
+                8 => MeanVari(rng.uniform(50.0, 60.0), rng.log_uniform(1e-3, 400.0)),
                 _ => MeanVari(rng.uniform(0.2, 60.0), rng.log_uniform(1e-3, 400.0)),
             })
             .collect();
@@ -72,6 +80,15 @@ pub fn run(ctx: &mut Ctx) {
         let mut pts: Vec<(f64, usize)> = Vec::new();
         let mut nontrivial = false;
         let mut sp = speeds(rng, f1);
+        if kind == 7 {
+            for _ in 0..3 {
+                sp.push(rng.uniform(5.0, 14.0));
+            }
+        }
+        if kind == 8 {
+            sp.push(0.1);
+            sp.push(rng.uniform(0.1, 0.125));
+        }
         // targets a little above one frame per state (n < target < 1.5 n)
         for _ in 0..3 {
             sp.push(f1 as f64 / (nst as f64 * rng.uniform(1.02, 1.5)));
